@@ -3,31 +3,77 @@
 #ifndef TETL_CMATH_REMAINDER_HPP
 #define TETL_CMATH_REMAINDER_HPP
 
-#include <etl/_3rd_party/gcem/gcem.hpp>
+#include <etl/_cmath/fmod.hpp>
+#include <etl/_limits/numeric_limits.hpp>
 
 namespace etl {
 
-/// Computes the remainder of the floating point division operation x/y.
-/// \details https://en.cppreference.com/w/cpp/numeric/math/remainder
-/// \ingroup cmath
-[[nodiscard]] constexpr auto remainder(float x, float y) noexcept -> float { return etl::detail::gcem::fmod(x, y); }
+namespace detail {
+
+/// IEEE 754 remainder: x - n * y with n the integer nearest to x/y, ties to even (ISO C 7.12.10.2).
+template <typename T>
+[[nodiscard]] constexpr auto remainder_impl(T x, T y) noexcept -> T
+{
+    constexpr auto inf = etl::numeric_limits<T>::infinity();
+    if (x != x or y != y or x == inf or x == -inf or y == T(0)) {
+        return etl::numeric_limits<T>::quiet_NaN();
+    }
+
+    auto const ay = y < T(0) ? -y : y;
+    if (ay == inf) {
+        return x;
+    }
+
+    // |x| reduced to [0, 2|y|): keeps the parity of the quotient
+    auto r = x < T(0) ? -x : x;
+    if (ay <= etl::numeric_limits<T>::max() / T(2)) {
+        r = etl::detail::fmod_impl(r, ay + ay);
+    }
+
+    if (ay < etl::numeric_limits<T>::min() * T(2)) {
+        // |y| / 2 may not be representable
+        if (r + r > ay) {
+            r -= ay;
+            if (r + r >= ay) {
+                r -= ay;
+            }
+        }
+    } else {
+        auto const half = ay / T(2);
+        if (r > half) {
+            r -= ay;
+            if (r >= half) {
+                r -= ay;
+            }
+        }
+    }
+
+    return x < T(0) ? -r : r;
+}
+
+} // namespace detail
 
 /// Computes the remainder of the floating point division operation x/y.
 /// \details https://en.cppreference.com/w/cpp/numeric/math/remainder
 /// \ingroup cmath
-[[nodiscard]] constexpr auto remainderf(float x, float y) noexcept -> float { return etl::detail::gcem::fmod(x, y); }
+[[nodiscard]] constexpr auto remainder(float x, float y) noexcept -> float { return etl::detail::remainder_impl(x, y); }
 
 /// Computes the remainder of the floating point division operation x/y.
 /// \details https://en.cppreference.com/w/cpp/numeric/math/remainder
 /// \ingroup cmath
-[[nodiscard]] constexpr auto remainder(double x, double y) noexcept -> double { return etl::detail::gcem::fmod(x, y); }
+[[nodiscard]] constexpr auto remainderf(float x, float y) noexcept -> float { return etl::detail::remainder_impl(x, y); }
+
+/// Computes the remainder of the floating point division operation x/y.
+/// \details https://en.cppreference.com/w/cpp/numeric/math/remainder
+/// \ingroup cmath
+[[nodiscard]] constexpr auto remainder(double x, double y) noexcept -> double { return etl::detail::remainder_impl(x, y); }
 
 /// Computes the remainder of the floating point division operation x/y.
 /// \details https://en.cppreference.com/w/cpp/numeric/math/remainder
 /// \ingroup cmath
 [[nodiscard]] constexpr auto remainder(long double x, long double y) noexcept -> long double
 {
-    return etl::detail::gcem::fmod(x, y);
+    return etl::detail::remainder_impl(x, y);
 }
 
 /// Computes the remainder of the floating point division operation x/y.
@@ -35,7 +81,7 @@ namespace etl {
 /// \ingroup cmath
 [[nodiscard]] constexpr auto remainderl(long double x, long double y) noexcept -> long double
 {
-    return etl::detail::gcem::fmod(x, y);
+    return etl::detail::remainder_impl(x, y);
 }
 
 } // namespace etl
